@@ -21,7 +21,7 @@ func (x *Exec) intercept(st *State, fn *ssa.Function, args []*Term) ([]Outcome, 
 	c := x.c
 	ret := func(v *Term) ([]Outcome, bool) { return []Outcome{{st: st, kind: ORet, val: v}}, true }
 	switch o.Name() {
-	case "P2", "P3", "P4", "Do":
+	case "P2", "P3", "P4", "Do", "Has":
 		return nil, false // executable helpers: run their bodies
 	case "W":
 		// W[T](x): x tagged with its static type T (kept even when T is an interface type)
@@ -234,7 +234,9 @@ func (x *Exec) applyMerged(st *State, f *Term, args []*Term) (*Term, *Term) {
 func (x *Exec) applyMerged3(st *State, f *Term, args []*Term) (*Term, *Term, *Term) {
 	s2 := st.clone()
 	s2.trace = nil
+	x.mergedDepth++
 	outs := x.applyFn(s2, f, args, false)
+	x.mergedDepth--
 	return x.mergeOuts(st, outs, f.Sort.Result)
 }
 
